@@ -16,7 +16,10 @@ RULE = ("histories add*/list(sorter) on Sorter and MafSorter through the public 
         "including 0, '', (), [], 0.0, False as keys and as values; items whose key function or codec raises; "
         "MAF records under the three codec configurations (scheme, explicit names, inferred), both sortable orders, "
         "contigs present/absent; sequences of 2-4 sorter sessions in ONE interpreter, each with its own order and its own "
-        "contig list (same names ranked differently, names left out -> the add must raise ValueError, no list). Streams: valid, single-defect (one raising item), boundary (n multiple of cap, n=0, "
+        "contig list (same names ranked differently, names left out -> the add must raise ValueError, no list); "
+        "two or three sorters ALIVE at the same time in one interpreter sharing the temporary directory, their adds and "
+        "iterations interleaved; callers that re-use ONE record object (MafRecord, or a mutable item of the generic "
+        "sorter) and edit it in place between adds - the oracle compares with the texts as they were at hand-over. Streams: valid, single-defect (one raising item), boundary (n multiple of cap, n=0, "
         "cap=1, cap=n, cap=n+1, all ties), adversarial (falsy keys/values, cap 0). Every case is also run under a "
         "second (capacity, policy, insertion order) and its key sequence compared. Non-trivial: at least one "
         "iteration returning two or more records; distinct by hash of the case")
@@ -66,6 +69,8 @@ def py_key(flavour, k):
 
 
 def py_item(flavour, k, i, bad, off):
+    if flavour == "mut":
+        return [k, i, bad, 0]              # a mutable item: the caller may re-use and edit it
     if flavour == "pint":
         return k + off
     if flavour == "pstr":
@@ -88,7 +93,7 @@ def item_rank(flavour, obj, off):
 
 class TupleCodec:
     def encode(self, obj):
-        return bytearray("%d,%d,%d" % obj[:3], "utf-8")
+        return bytearray("%d,%d,%d" % tuple(obj[:3]), "utf-8")
 
     def decode(self, data, start, length):
         k, i, b = (int(x) for x in bytes(data[start:start + length]).decode("utf-8").split(","))
@@ -121,7 +126,7 @@ def make_generic(case, cap, always, tmp):
                 raise ValueError("no key")
             if x[2] == 3 and x[3] == 1:
                 raise TypeError("no key for the decoded copy")
-            return py_key(fl, x[0])
+            return py_key("t/int" if fl == "mut" else fl, x[0])
         codec = TupleCodec()
     return Sorter(cap, codec, key, tmp_dir=tmp, always_spill=always), key
 
@@ -282,6 +287,52 @@ def _gen_maf(rng, stream):
             "ops": _ops(items, rng.random() < 0.5, []), "alt": _alt(rng, n)}
 
 
+def _gen_reuse(rng, stream):
+    """the caller fills ONE object again and again, editing it in place between adds"""
+    if rng.random() < 0.6:
+        c = _gen_maf(rng, "valid")
+    else:
+        c = _gen_generic(rng, "valid")
+        c["flavour"] = "mut"
+        c["ops"] = [([o[0], o[1], o[2] if len(o) > 2 else 0, 0] if o[0] == "add" else o) for o in c["ops"]]
+        n = 0
+        for o in c["ops"]:
+            if o[0] == "add":
+                o[2] = n
+                n += 1
+    c["reuse"] = True
+    c["stream"] = stream
+    return c
+
+
+def _gen_interleaved(rng, stream):
+    """two or three sorters alive at the same time, sharing the temporary directory, adds interleaved, one
+    iterated while the others still hold spill files"""
+    ss = []
+    for _ in range(rng.randint(2, 3)):
+        r = rng.random()
+        if r < 0.45:
+            c = _gen_maf(rng, "valid")
+        elif r < 0.6:
+            c = _gen_reuse(rng, "valid")
+        else:
+            c = _gen_generic(rng, "valid")
+            if c["flavour"] in PLAIN:
+                c["flavour"] = "t/int"
+                n = 0
+                for o in c["ops"]:
+                    if o[0] == "add":
+                        o[2] = n
+                        n += 1
+        if rng.random() < 0.7:
+            c["cap"] = rng.randint(1, 2)               # make sure chunks with the same ordinal exist side by side
+            c["always"] = True
+        ss.append(c)
+    sched = [k for k, c in enumerate(ss) for _ in c["ops"]]
+    rng.shuffle(sched)
+    return {"stream": stream, "flavour": "interleaved", "sessions": ss, "schedule": sched}
+
+
 def _gen_sessions(rng, stream):
     """2-4 sorter sessions in one process: different orders, and contig lists that rank the same names
     differently, leave names out, or are absent"""
@@ -305,8 +356,15 @@ def generate(rng, n):
     out = []
     for _ in range(n):
         stream = rng.choice(["valid", "valid", "boundary", "defect", "adversarial"])
-        if rng.random() < 0.12:
+        r0 = rng.random()
+        if r0 < 0.10:
             out.append(_gen_sessions(rng, stream))
+            continue
+        if r0 < 0.20:
+            out.append(_gen_interleaved(rng, stream))
+            continue
+        if r0 < 0.30:
+            out.append(_gen_reuse(rng, stream))
             continue
         if rng.random() < 0.3:
             out.append(_gen_maf(rng, "valid" if stream in ("defect", "adversarial") else stream))
@@ -351,10 +409,30 @@ def corpus():
             dict(_maf_session(["chr1", "chr2", "chrX"], "Coordinate"), cap=2),
             dict(_maf_session(["chr1", "chrX", "chr2"], "Coordinate"), cap=1),
             dict(_maf_session(["chrX", "chr1"], "BarcodesAndCoordinate"), cap=3)]},
+        # seeded change: the sort key of "the most recent record object" memoised by identity -> a caller who
+        # re-uses one record object and edits it in place got stale keys
+        dict(_maf_session(None, "Coordinate"), cap=4, reuse=True),
+        dict(_maf_session(["chr1", "chr2", "chrX"], "BarcodesAndCoordinate"), cap=10, always=False, reuse=True, codec="scheme"),
+        {"stream": "corpus", "flavour": "mut", "cap": 3, "always": True, "off": 0, "reuse": True,
+         "ops": _ops([[3, 0, 0], [1, 1, 0], [2, 2, 0], [1, 3, 0], [0, 4, 0]], True, []), "alt": alt},
+        # seeded change: spill files named by pid and chunk number -> two sorters alive at the same time
+        # overwrote each other's chunks
+        {"stream": "corpus", "flavour": "interleaved", "schedule": [0, 1, 0, 1, 0, 1, 0, 1, 0, 1, 1, 0],
+         "sessions": [
+             {"stream": "corpus", "flavour": "t/int", "cap": 2, "always": True, "off": 0,
+              "ops": _ops([[3, 0, 0], [1, 1, 0], [2, 2, 0], [0, 3, 0]], True, []), "alt": alt},
+             {"stream": "corpus", "flavour": "t/int", "cap": 2, "always": True, "off": 0,
+              "ops": _ops([[13, 10, 0], [11, 11, 0], [12, 12, 0], [10, 13, 0]], True, []), "alt": alt}]},
     ]
 
 
 def shrink(case):
+    if case["flavour"] == "interleaved":
+        ss = case["sessions"]
+        for i in range(len(ss)):
+            for c in shrink(ss[i]):
+                yield dict(case, sessions=ss[:i] + [c] + ss[i + 1:])
+        return
     if case["flavour"] == "sessions":
         ss = case["sessions"]
         for i in range(len(ss)):
@@ -382,7 +460,7 @@ def _model_item(case, ranks, o):
 
 
 def to_model(case):
-    if case["flavour"] == "sessions":
+    if case["flavour"] in ("sessions", "interleaved"):
         return [5] + [to_model(c) for c in case["sessions"]]
     ranks = maf_rank_table(case) if case["flavour"] == "maf" else None
     ops = [(_model_item(case, ranks, o) if o[0] == "add" else [1]) for o in case["ops"]]
@@ -418,7 +496,7 @@ def _step(case, items, exc):
 
 
 def from_model(case, sx):
-    if case["flavour"] == "sessions":
+    if case["flavour"] in ("sessions", "interleaved"):
         return {"sessions": [from_model(c, r) for c, r in zip(case["sessions"], sx)]}
     steps = []
     for o, r in zip(case["ops"], sx):
@@ -431,65 +509,111 @@ def from_model(case, sx):
 
 
 # ------------------------------------------------------------ implementation
-def _run_history(case, cap, always, ops, tmp):
-    """drives the public API; returns (steps, details)"""
-    fl = case["flavour"]
-    scheme = _scheme() if fl == "maf" else None
-    ranks = maf_rank_table(case) if fl == "maf" else None
-    sorter, kf = make_maf(case, cap, always, tmp, scheme) if fl == "maf" else make_generic(case, cap, always, tmp)
-    steps, details = [], []
-    added = []          # [rank, id, text, values] of every successfully added item
-    try:
-        for o in ops:
-            if o[0] == "add":
-                exc = None
-                try:
-                    if fl == "maf":
-                        obj = maf_record(case, o[1], o[2], scheme)
-                        sorter += obj
-                        added.append([ranks[o[1]], o[2], str(obj), [repr(v) for v in obj.column_values()]])
-                    else:
-                        obj = py_item(fl, o[1], o[2], o[3], case.get("off", 0))
-                        sorter += obj
-                        added.append([o[1], o[2] if fl not in PLAIN else 0, repr(obj[:3] if isinstance(obj, tuple) and fl not in PLAIN else obj), None])
-                except Exception as e:  # noqa: BLE001
-                    exc = exc_code(e)
-                steps.append({"exc": exc})
-                details.append(None)
+class _Hist:
+    """one live sorter driven through the public API, operation by operation"""
+
+    def __init__(self, case, cap, always, tmp):
+        self.case = case
+        fl = self.fl = case["flavour"]
+        self.scheme = _scheme() if fl == "maf" else None
+        self.ranks = maf_rank_table(case) if fl == "maf" else None
+        self.sorter, self.kf = (make_maf(case, cap, always, tmp, self.scheme) if fl == "maf"
+                                else make_generic(case, cap, always, tmp))
+        self.steps, self.details = [], []
+        self.added = []          # [rank, id, text, values] of every item handed over, as it was at hand-over
+        self.shared = None       # the ONE object a re-using caller fills again and again
+
+    def _maf_obj(self, k, i):
+        fresh = maf_record(self.case, k, i, self.scheme)
+        if not self.case.get("reuse"):
+            return fresh
+        if self.shared is None:
+            self.shared = fresh
+        else:
+            for name in COLS:                      # edit the caller's record in place
+                self.shared[name].value = fresh[name].value
+        return self.shared
+
+    def _gen_obj(self, o):
+        fl = self.fl
+        obj = py_item(fl, o[1], o[2], o[3], self.case.get("off", 0))
+        if fl == "mut" and self.case.get("reuse"):
+            if self.shared is None:
+                self.shared = obj
             else:
-                got, exc = [], None
-                try:
-                    for r in sorter:
-                        got.append(r)
-                except Exception as e:  # noqa: BLE001
-                    exc = exc_code(e)
-                items, texts, keys_sorted = [], [], True
-                prev = None
-                for r in got:
-                    if fl == "maf":
-                        i = int(r["Id"].value[1:])
-                        kcls = next(a[0] for a in added if a[1] == i)
-                        items.append([kcls, i])
-                        texts.append([i, str(r), [repr(v) for v in r.column_values()]])
-                    else:
-                        items.append(item_rank(fl, r, case.get("off", 0)))
-                        texts.append([items[-1][1], repr(r[:3] if isinstance(r, tuple) and fl not in PLAIN else r), None])
-                    try:
-                        kk = kf(r)
-                        if prev is not None and kk < prev[0]:
-                            keys_sorted = False
-                        prev = (kk,)
-                    except Exception:  # noqa: BLE001
-                        pass
-                steps.append(_step(case, items, exc))
-                details.append({"n_items": len(items), "raw_keys": [x[0] for x in items], "texts": texts, "sorted_by_real_lt": keys_sorted,
-                                "added": [list(a) for a in added]})
-    finally:
+                self.shared[:] = obj               # same list object, new content
+            return self.shared
+        return obj
+
+    def step(self, o):
+        case, fl, sorter, added = self.case, self.fl, self.sorter, self.added
+        if o[0] == "add":
+            exc = None
+            try:
+                if fl == "maf":
+                    obj = self._maf_obj(o[1], o[2])
+                    text, vals = str(obj), [repr(v) for v in obj.column_values()]
+                    sorter += obj
+                    added.append([self.ranks[o[1]], o[2], text, vals])
+                else:
+                    obj = self._gen_obj(o)
+                    text = repr(tuple(obj[:3]) if fl not in PLAIN else obj)
+                    sorter += obj
+                    added.append([o[1], o[2] if fl not in PLAIN else 0, text, None])
+            except Exception as e:  # noqa: BLE001
+                exc = exc_code(e)
+            self.steps.append({"exc": exc})
+            self.details.append(None)
+            return
+        got, exc = [], None
         try:
-            sorter.close()
+            for r in sorter:
+                got.append(r)
+        except Exception as e:  # noqa: BLE001
+            exc = exc_code(e)
+        items, texts, keys_sorted = [], [], True
+        prev = None
+        for r in got:
+            try:
+                if fl == "maf":
+                    i = int(r["Id"].value[1:])
+                    kcls = next((a[0] for a in added if a[1] == i), -1)
+                    items.append([kcls, i])
+                    texts.append([i, str(r), [repr(v) for v in r.column_values()]])
+                else:
+                    items.append(item_rank(fl, r, case.get("off", 0)))
+                    texts.append([items[-1][1], repr(tuple(r[:3]) if fl not in PLAIN else r), None])
+            except Exception:  # noqa: BLE001      something that is not one of our records came back
+                items.append([-1, -1])
+                texts.append([-1, repr(r)[:80], None])
+            try:
+                kk = self.kf(r)
+                if prev is not None and kk < prev[0]:
+                    keys_sorted = False
+                prev = (kk,)
+            except Exception:  # noqa: BLE001
+                pass
+        self.steps.append(_step(case, items, exc))
+        self.details.append({"n_items": len(items), "raw_keys": [x[0] for x in items], "texts": texts,
+                             "sorted_by_real_lt": keys_sorted, "added": [list(a) for a in added]})
+
+    def finish(self):
+        try:
+            self.sorter.close()
         except Exception:  # noqa: BLE001
             pass
-    return steps, details
+        return self.steps, self.details
+
+
+def _run_history(case, cap, always, ops, tmp):
+    """drives the public API; returns (steps, details)"""
+    h = _Hist(case, cap, always, tmp)
+    try:
+        for o in ops:
+            h.step(o)
+    finally:
+        h.finish()
+    return h.steps, h.details
 
 
 def run_impl(case):
@@ -499,6 +623,27 @@ def run_impl(case):
     import random
     os.makedirs(WORK, exist_ok=True)
     tmp = tempfile.mkdtemp(prefix="c07_", dir=WORK)
+    if case["flavour"] == "interleaved":
+        # several sorters ALIVE AT THE SAME TIME in one interpreter, sharing one temporary directory; their
+        # operations are interleaved as the schedule says; all are closed at the end
+        try:
+            hs = [_Hist(c, c["cap"], c["always"], tmp) for c in case["sessions"]]
+            pos = [0] * len(hs)
+            try:
+                for k in case["schedule"]:
+                    if pos[k] < len(case["sessions"][k]["ops"]):
+                        hs[k].step(case["sessions"][k]["ops"][pos[k]])
+                        pos[k] += 1
+                for k, h in enumerate(hs):                  # whatever the schedule left out
+                    for o in case["sessions"][k]["ops"][pos[k]:]:
+                        h.step(o)
+            finally:
+                for h in hs:
+                    h.finish()
+            left = len(os.listdir(tmp))
+        finally:
+            shutil.rmtree(tmp, ignore_errors=True)
+        return {"sessions": [{"steps": h.steps, "_details": h.details, "_alt": None, "_left": 0} for h in hs], "_left": left}
     try:
         steps, details = _run_history(case, case["cap"], case["always"], case["ops"], tmp)
         left = len(os.listdir(tmp))
@@ -524,8 +669,10 @@ def _clean(case):
 
 
 def oracle(case, obs):
-    if case["flavour"] == "sessions":
+    if case["flavour"] in ("sessions", "interleaved"):
         out = []
+        if obs.get("_left"):
+            out.append("spill-files-left-after-close: %d" % obs["_left"])
         for n, (c, o) in enumerate(zip(case["sessions"], obs["sessions"])):
             out += ["%s [session %d of %d, contigs %r]" % (v, n, len(case["sessions"]), case_contigs(c)) for v in oracle(c, o)]
         return out
@@ -578,7 +725,7 @@ def oracle(case, obs):
         last_keys = d["raw_keys"]
     # independence of capacity, policy and insertion order
     its = [i for i, o in enumerate(case["ops"]) if o[0] == "iter"]
-    if its and not out:
+    if its and not out and obs.get("_alt"):
         final = obs["_details"][its[-1]]["raw_keys"]
         a = obs["_alt"]
         if a["steps"][-1].get("exc") is not None or a["details"][-1]["raw_keys"] != final:
@@ -595,11 +742,14 @@ def signature(case, violation):
 
 
 def classify(case, obs):
+    if case["flavour"] == "interleaved":
+        kinds = sorted(set(c["flavour"] + ("/reuse" if c.get("reuse") else "") for c in case["sessions"]))
+        return "%s/interleaved=%d/%s" % (case["stream"], len(case["sessions"]), "+".join(kinds))
     if case["flavour"] == "sessions":
         kinds = sorted(set((c["order"][0] + ("c" if case_contigs(c) else "-")) for c in case["sessions"]))
         return "%s/sessions=%d/%s" % (case["stream"], len(case["sessions"]), "+".join(kinds))
     n = sum(1 for o in case["ops"] if o[0] == "add")
-    fl = case["flavour"] if case["flavour"] != "maf" else "maf/" + case["codec"]
+    fl = (case["flavour"] if case["flavour"] != "maf" else "maf/" + case["codec"]) + ("/reuse" if case.get("reuse") else "")
     if obs is None:
         return "%s/%s/error" % (case["stream"], fl)
     chunks = "nospill" if (not case["always"] and n < max(case["cap"], 1)) else ("1chunk" if n <= max(case["cap"], 1) else "merge")
@@ -608,6 +758,6 @@ def classify(case, obs):
 
 
 def nontrivial(case, obs):
-    if case["flavour"] == "sessions":
+    if case["flavour"] in ("sessions", "interleaved"):
         return sum(1 for c, o in zip(case["sessions"], obs["sessions"]) if nontrivial(c, o)) >= 2
     return any(len(s.get("items") or []) >= 2 for s in obs["steps"])
